@@ -151,12 +151,15 @@ Outcome RunC10(RunCtx& ctx)
 	GenCfg g;
 	g.archive = archive;
 	g.allowIntKeys = archive == A_MSGPACK || archive == A_JSON;
+	g.binAsArray = true;
 	// swarm: half of the runs restrict the enabled kinds
 	if (s.chance(sim::L_CFG, 1, 2)) g.kindMask = s.draw(sim::L_CFG, 0xFFFFFFFFu) | (1u << static_cast<int>(K::I32));
 	SerializationOptions o = GenLoadOptions(s, sim::L_CFG, archive);
 	// regions of the findings owned by C01 are not entered here (they would only re-report the same defects)
 	if (archive == A_CSV) g.allowEmptyContainers = false;   // KF-CSV-EMPTY-TABLE
-	if (archive == A_JSON) g.simpleFloats = true;                               // KF-JSON-DOUBLE-PRECISION
+	// KF-JSON-DOUBLE-PRECISION is about save-then-load; here both entries read the same text, so arbitrary doubles are in the domain
+	// (whatever the parser makes of 17 digits, it must make the same of them from memory and from a stream)
+	if (archive == A_JSON) g.simpleFloats = s.chance(sim::L_CFG, 1, 2);
 
 	DynNode doc = GenDocument(s, sim::L_DOC, g);
 
